@@ -113,7 +113,13 @@ def _cmp_atom(op: str, l: ast.expr, r: ast.expr, env) -> tuple:
 
 
 def nnf(e: ast.expr, positive: bool = True, env=None):
-    """Negation normal form of a Python condition."""
+    """Negation normal form of a Python condition (single-definition locals substituted first)."""
+    if env:
+        e = subst(e, env)
+    return _nnf(e, positive, None)
+
+
+def _nnf(e: ast.expr, positive: bool = True, env=None):
     if isinstance(e, ast.UnaryOp) and isinstance(e.op, ast.Not):
         return nnf(e.operand, not positive, env)
     if isinstance(e, ast.BoolOp):
@@ -212,12 +218,43 @@ def show(f) -> str:
 
 
 def entails(facts: Iterable, goal) -> bool:
-    """Does the conjunction of `facts` (NNF formulas known true) entail `goal`?  Sound, incomplete."""
+    """Does the conjunction of `facts` (NNF formulas known true) entail `goal`?  Sound, incomplete.
+    Order atoms are closed under transitivity and equalities (A6)."""
     fs = set()
     for f in facts:
         for a in atoms_true(f):
             fs.add(a)
     return _ent(fs, goal)
+
+
+def _order_reach(fs: Set, l: str, r: str, strict: bool) -> bool:
+    """Is there a chain l (<|<=|==) ... r in fs; if strict, with at least one '<' edge."""
+    if l == r and not strict:
+        return True
+    edges: Dict[str, List[Tuple[str, bool]]] = {}
+    for a in fs:
+        if a[0] != 'cmp':
+            continue
+        _, op, x, y = a
+        if op == '<':
+            edges.setdefault(x, []).append((y, True))
+        elif op == '<=':
+            edges.setdefault(x, []).append((y, False))
+        elif op == '==':
+            edges.setdefault(x, []).append((y, False))
+            edges.setdefault(y, []).append((x, False))
+    seen = set()
+    stack = [(l, False)]
+    while stack:
+        n, st = stack.pop()
+        if (n, st) in seen:
+            continue
+        seen.add((n, st))
+        if n == r and (st or not strict):
+            return True
+        for m, s_ in edges.get(n, ()):
+            stack.append((m, st or s_))
+    return False
 
 
 def _ent(fs: Set, g) -> bool:
@@ -230,19 +267,20 @@ def _ent(fs: Set, g) -> bool:
     if g[0] == 'or':
         if any(_ent(fs, k) for k in g[1]):
             return True
-        # a known disjunction whose every branch entails g
         for f in fs:
-            if f[0] == 'or' and all(_ent({*(atoms_true(k))}, g) for k in f[1]):
+            if f[0] == 'or' and all(_ent((fs - {f}) | set(atoms_true(k)), g) for k in f[1]):
                 return True
         return False
     if g[0] == 'cmp':
         _, op, l, r = g
-        if op == '<=':
-            if ('cmp', '<', l, r) in fs or mk_cmp('==', l, r) in fs:
-                return True
+        if op == '<=' and _order_reach(fs, l, r, False):
+            return True
+        if op == '<' and _order_reach(fs, l, r, True):
+            return True
+        if op == '==' and _order_reach(fs, l, r, False) and _order_reach(fs, r, l, False):
+            return True
         if op == '!=':
-            a, b = g[2], g[3]
-            if ('cmp', '<', a, b) in fs or ('cmp', '<', b, a) in fs:
+            if _order_reach(fs, l, r, True) or _order_reach(fs, r, l, True):
                 return True
         if op == 'isnot' and r == 'None':
             # x is not None follows from truthiness of x
@@ -254,7 +292,7 @@ def _ent(fs: Set, g) -> bool:
             return True
     # a known disjunction all of whose branches give g
     for f in fs:
-        if f[0] == 'or' and all(_ent(set(atoms_true(k)), g) for k in f[1]):
+        if f[0] == 'or' and all(_ent((fs - {f}) | set(atoms_true(k)), g) for k in f[1]):
             return True
     return False
 
